@@ -1,4 +1,5 @@
 import TwistedProps.C03.Invariant
+import TwistedProps.C03.Reent
 /-!
 C03 — a Deferred delivers one result; cancellation follows its protocol.
 
@@ -438,5 +439,164 @@ example : (exec (init .none) [.callback 1]).called = true ∧
 -- the repair: a raising canceller no longer leaves the Deferred unfired
 example : ((execRepaired (init .raises) [.cancel]).delivered, (execRepaired (init .raises) [.cancel]).cancCalls)
     = ([.cancelled], 1) := by decide
+
+section Reentrant
+open Twisted.Defer
+/-! ### 7. Re-entrant operations: callbacks that fire / cancel the Deferred whose chain is running
+
+Model `TwistedModel/Defer/Reenter.lean` (ONE Deferred, any canceller, callbacks that call `callback()`,
+`errback()` or `cancel()` on it from inside its callback chain).  Added by the white-box mutation audit
+(mutant m05 set `called` only after the callbacks had run). -/
+
+/-- `s` is the state after some history on a fresh Deferred -/
+def ReachR (s : Reenter.State) : Prop := ∃ spec h, s = Reenter.exec (Reenter.init spec) h
+
+theorem reachR_inv {s : Reenter.State} (h : ReachR s) : Reent.Inv s := by
+  obtain ⟨spec, hist, rfl⟩ := h
+  exact Reent.exec_inv _ hist (Reent.init_inv spec)
+
+/-- **One result, with re-entrant callbacks, all histories.** -/
+theorem reent_one_result (spec : CancelSpec) (h : List Reenter.Op) :
+    let s := Reenter.exec (Reenter.init spec) h
+    s.delivered.length ≤ 1 ∧ (s.called = true ↔ s.delivered.length = 1) := by
+  intro s
+  have hi : Reent.Inv s := reachR_inv ⟨spec, h, rfl⟩
+  cases hc : s.called with
+  | false => simp [(hi.unf hc).1]
+  | true => simp [(hi.fir hc).1]
+
+/-- **The result is never replaced, whatever the callbacks do.**  Once fired, any further operation —
+    including one that makes re-entrant callbacks run — leaves `called` and the delivered result alone, and a
+    further `callback()` from outside is refused (or is the one that is ignored). -/
+theorem reent_result_never_replaced (s : Reenter.State) (h : ReachR s) (hc : s.called = true) (op : Reenter.Op) :
+    (Reenter.step s op).1.called = true ∧ (Reenter.step s op).1.delivered = s.delivered ∧
+    (Reenter.step s op).1.cancCalls = s.cancCalls ∧
+    (∀ v, op = .callback v → (Reenter.step s op).2 = if s.suppress then .ok else .alreadyCalled) := by
+  have hi := reachR_inv h
+  have hc0 : ({ s with log := [] } : Reenter.State).called = true := hc
+  cases op with
+  | callback v =>
+    have hstep : Reenter.step s (.callback v) = Reenter.refire { s with log := [] } := Reent.fire_called_eq _ _ hc0
+    rw [hstep]; unfold Reenter.refire
+    by_cases hs : s.suppress = true <;> simp [hs, hc]
+  | errback e =>
+    have hstep : Reenter.step s (.errback e) = Reenter.refire { s with log := [] } := Reent.fire_called_eq _ _ hc0
+    rw [hstep]; unfold Reenter.refire
+    by_cases hs : s.suppress = true <;> simp [hs, hc]
+  | cancel =>
+    have hstep : Reenter.step s .cancel = ({ s with log := [] }, .ok) := Reent.cancel_called _ hc0
+    rw [hstep]; simp [hc]
+  | add a =>
+    have hstep : Reenter.step s (.add a) = (Reenter.runCbs (Reent.pushed { s with log := [] } a), .ok) := by
+      show (Reenter.add _ a, Outcome.ok) = _
+      rw [Reent.add_fired _ a hc0]
+    rw [hstep]
+    obtain ⟨a1, a2, a3, _⟩ := Reent.runCbs_spec (Reent.pushed { s with log := [] } a)
+    exact ⟨a1.trans hc, a2, a3, fun v hv => by cases hv⟩
+
+/-- **What the re-entrant calls get.**  During ANY operation after ANY history: at most one re-entrant
+    `callback()/errback()` is swallowed; and unless an ignore was pending from an earlier canceller-less
+    `cancel()`, or the operation IS the `cancel()` of the unfired canceller-less Deferred, none is: every
+    re-entrant `callback()/errback()` raises AlreadyCalledError and every re-entrant `cancel()` returns with no
+    effect (`Reent.refusedRec`; that nothing changes is `Reent.foldl_runAct_spec`). -/
+theorem reent_records (s : Reenter.State) (h : ReachR s) (op : Reenter.Op) :
+    Reent.swallowed (Reenter.step s op).1.log ≤ 1 ∧
+    (s.suppress = false → ¬ (op = .cancel ∧ s.called = false ∧ s.canc = .none) →
+      ∀ r ∈ (Reenter.step s op).1.log, Reent.refusedRec r) := by
+  have hi := reachR_inv h
+  -- the state the operation starts from: same flags, empty log
+  let s0 : Reenter.State := { s with log := [] }
+  have hlog : s0.log = [] := rfl
+  have key : ∀ (t : Reenter.State), t.log = [] → t.called = false → t.delivered = [] → ∀ r,
+      Reent.swallowed (Reenter.fire t r).1.log ≤ 1 ∧
+      (t.suppress = false → ∀ x ∈ (Reenter.fire t r).1.log, Reent.refusedRec x) := by
+    intro t hl hc hd r
+    obtain ⟨_, _, _, _, _, _, g, k⟩ := Reent.fire_fresh t r hc hd
+    rw [hl] at g k
+    refine ⟨Nat.le_trans g (by simp [Reent.swallowed]; split <;> omega), fun hs x hx => ?_⟩
+    rcases (k hs).2 x hx with h' | h'
+    · cases h'
+    · exact h'
+  have nil : ∀ (t : Reenter.State), t.log = [] →
+      Reent.swallowed t.log ≤ 1 ∧ ∀ r ∈ t.log, Reent.refusedRec r := by
+    intro t hl; rw [hl]; exact ⟨by simp [Reent.swallowed], fun r hr => by cases hr⟩
+  have hrefire : (Reenter.refire s0).1.log = [] := by
+    unfold Reenter.refire; by_cases hs : s0.suppress = true <;> simp [hs, hlog]
+  cases hc : s.called with
+  | true =>
+    have hc0 : s0.called = true := hc
+    cases op with
+    | callback v =>
+      have hstep : Reenter.step s (.callback v) = Reenter.refire s0 := Reent.fire_called_eq _ _ hc0
+      rw [hstep]
+      exact ⟨(nil _ hrefire).1, fun _ _ => (nil _ hrefire).2⟩
+    | errback e =>
+      have hstep : Reenter.step s (.errback e) = Reenter.refire s0 := Reent.fire_called_eq _ _ hc0
+      rw [hstep]
+      exact ⟨(nil _ hrefire).1, fun _ _ => (nil _ hrefire).2⟩
+    | cancel =>
+      have hstep : Reenter.step s .cancel = (s0, .ok) := Reent.cancel_called _ hc0
+      rw [hstep]; exact ⟨(nil _ hlog).1, fun _ _ => (nil _ hlog).2⟩
+    | add a =>
+      have hstep : Reenter.step s (.add a) = (Reenter.runCbs (Reent.pushed s0 a), .ok) := by
+        show (Reenter.add s0 a, Outcome.ok) = _
+        rw [Reent.add_fired _ a hc0]
+      rw [hstep]
+      obtain ⟨_, _, _, _, _, _, g, k⟩ := Reent.runCbs_spec (Reent.pushed s0 a)
+      have hl : (Reent.pushed s0 a).log = [] := rfl
+      rw [hl] at g k
+      refine ⟨Nat.le_trans g (by simp [Reent.swallowed]; split <;> omega), fun hs _ x hx => ?_⟩
+      rcases (k hs).2 x hx with h' | h'
+      · cases h'
+      · exact h'
+  | false =>
+    have hc0 : s0.called = false := hc
+    have hd0 : s0.delivered = [] := (hi.unf hc).1
+    have hs0 : s0.suppress = false := (hi.unf hc).2.1
+    cases op with
+    | callback v =>
+      obtain ⟨a, b⟩ := key s0 hlog hc0 hd0 (.val v)
+      exact ⟨a, fun _ _ => b hs0⟩
+    | errback e =>
+      obtain ⟨a, b⟩ := key s0 hlog hc0 hd0 (.err e)
+      exact ⟨a, fun _ _ => b hs0⟩
+    | add a =>
+      have hstep : Reenter.step s (.add a) = (Reent.pushed s0 a, .ok) := by
+        show (Reenter.add s0 a, Outcome.ok) = _
+        rw [Reent.add_unfired _ a hc0]
+      rw [hstep]; exact ⟨(nil _ rfl).1, fun _ _ => (nil _ rfl).2⟩
+    | cancel =>
+      have hstep : Reenter.step s .cancel = Reenter.cancel s0 := rfl
+      rw [hstep]
+      cases hcc : s.canc with
+      | none =>
+        rw [Reent.cancel_none s0 hc0 hcc]
+        obtain ⟨a, _⟩ := key (Reent.flagged s0) rfl hc0 hd0 .cancelled
+        exact ⟨a, fun _ hn => absurd ⟨rfl, rfl, rfl⟩ hn⟩
+      | noop =>
+        rw [Reent.cancel_noop s0 hc0 hcc]
+        obtain ⟨a, b⟩ := key (Reent.bumped s0) rfl hc0 hd0 .cancelled
+        exact ⟨a, fun _ _ => b hs0⟩
+      | firesOk v =>
+        rw [Reent.cancel_firesOk s0 v hc0 hcc]
+        obtain ⟨a, b⟩ := key (Reent.bumped s0) rfl hc0 hd0 (.val v)
+        exact ⟨a, fun _ _ => b hs0⟩
+      | firesErr e =>
+        rw [Reent.cancel_firesErr s0 e hc0 hcc]
+        obtain ⟨a, b⟩ := key (Reent.bumped s0) rfl hc0 hd0 (.err e)
+        exact ⟨a, fun _ _ => b hs0⟩
+      | raises =>
+        rw [Reent.cancel_raises s0 hc0 hcc]; exact ⟨(nil _ rfl).1, fun _ _ => (nil _ rfl).2⟩
+
+-- non-vacuity: a callback re-fires its Deferred during a canceller-less cancel() (swallowed once), then a late
+-- callback from outside is refused; and without a pending ignore both re-entrant calls are refused
+example : ((Reenter.trace (Reenter.init .none) [.add (.fire (.val 9)), .add (.fire (.val 8)), .cancel, .callback 1]).map
+      (fun p => (p.1, p.2.log.map (·.out), p.2.delivered)))
+    = [(.ok, [], []), (.ok, [], []), (.ok, [.ok, .alreadyCalled], [.cancelled]), (.alreadyCalled, [], [.cancelled])] := by decide
+example : ((Reenter.trace (Reenter.init .noop) [.add (.fire (.val 9)), .add .cancel, .callback 1, .cancel]).map
+      (fun p => (p.1, p.2.log.map (·.out), p.2.delivered, p.2.cancCalls)))
+    = [(.ok, [], [], 0), (.ok, [], [], 0), (.ok, [.alreadyCalled, .ok], [.val 1], 0), (.ok, [], [.val 1], 0)] := by decide
+
+end Reentrant
 
 end TwistedProps.C03
